@@ -26,7 +26,7 @@ def cells_chunk(task):
     if task.get("via"):
         bx = f"{bx} (set with SetBounds on an evolvent built for {task['via']})"
     n = 2 ** (N * m)
-    lo_a, up_a = np.array(lo), np.array(up)
+    lo_a, up_a = np.array(lo, dtype=float), np.array(up, dtype=float)
     side = up_a - lo_a
     msgs = []
     flat = []
@@ -50,6 +50,8 @@ def cells_chunk(task):
         flat.append(f)
         if len(msgs) > 10:
             break
+    if a == 0 and b == n and n <= 2 ** 10 and len(msgs) == 0:
+        msgs += curve.query_mix(ev, N, m, lo, up, f"N={N} m={m} box={bx}")
     last = None
     if b == n:
         y1 = ev.GetImage(1.0)
@@ -205,6 +207,10 @@ def run(ctx):
             step = max(256, n // 32)
             for a in range(0, n, step):
                 tasks.append(dict(N=N, m=m, box=bx, a=a, b=min(n, a + step)))
+    # a unit box at 1e10 and integer-typed bounds (Python ints with an odd sum), small configurations
+    for (N, m) in [c for c in curve.small_configs(8 if not th else 10)]:
+        for bx in ("B4", "Z"):
+            tasks.append(dict(N=N, m=m, box=bx, a=0, b=2 ** (N * m)))
     # the same exhaustive cell enumeration with the box configured through SetBounds (every ordered pair of boxes)
     for (N, m) in [c for c in curve.small_configs(8 if not th else 10)]:
         n = 2 ** (N * m)
